@@ -120,7 +120,9 @@ fn build(prefix: &str, segs: &[&str], trailing: bool) -> String {
 }
 
 /// Enumerate all pairs with total segment count == total, for this shard.
-fn enumerate_total(total: usize, shard: usize, nshards: usize, f: &mut dyn FnMut(&str, Option<&str>)) {
+/// `f(spec, importer, canonical)`: canonical = undecorated segment lists (a bijection with strings), used
+/// to count *distinct* pairs conservatively (decorated forms can coincide with other forms).
+fn enumerate_total(total: usize, shard: usize, nshards: usize, f: &mut dyn FnMut(&str, Option<&str>, bool)) {
     // choose all segment tuples of length `total`, then every split point and decoration
     let n = ALPHA.len();
     let combos = n.pow(total as u32);
@@ -142,13 +144,14 @@ fn enumerate_total(total: usize, shard: usize, nshards: usize, f: &mut dyn FnMut
                 for st in [false, true] {
                     let spec = build(pre, sp, st);
                     // importer None only once per spec form (when importer part is empty)
+                    let spec_canon = pre.is_empty() && !st && !sp.is_empty();
                     if im.is_empty() {
-                        f(&spec, None);
+                        f(&spec, None, spec_canon);
                     }
                     for il in [false, true] {
                         for it in [false, true] {
                             let imp = build(if il { "/" } else { "" }, im, it);
-                            f(&spec, Some(&imp));
+                            f(&spec, Some(&imp), spec_canon && !il && !it && !im.is_empty());
                         }
                     }
                 }
@@ -169,7 +172,7 @@ impl Property for C18Prop {
         "C18"
     }
     fn rule(&self) -> String {
-        "Exhaustive part: every (specifier, importer) pair with prefix in {'', '/', './', '../'}, importer with/without leading and trailing slash (and importer=None), total segments <= N (quick N=5, thorough N=7) over {'', '.', '..', 'a', 'b', '..a', 'a.ts'}; pairs are distinct by construction. Random part: paths of up to 40 segments incl. non-ASCII names, plus metamorphic respellings (insert './' or 'x/../'). Non-trivial: the pair contains a '.', '..' or empty segment, or the importer sits directly under '/'. One-segment specifiers '.'/'..' and relative-base '..' underflow are counted as unjudged.".into()
+        "Exhaustive part: every (specifier, importer) pair with prefix in {'', '/', './', '../'}, importer with/without leading and trailing slash (and importer=None), total segments <= N (quick N=5, thorough N=7) over {'', '.', '..', 'a', 'b', '..a', 'a.ts'}; distinct_nontrivial counts only undecorated segment-list pairs (a bijection with strings, hence pairwise distinct); decorated forms are evaluated too but not counted as distinct. Random part: paths of up to 40 segments incl. non-ASCII names, plus metamorphic respellings (insert './' or 'x/../'). Non-trivial: the pair contains a '.', '..' or empty segment, or the importer sits directly under '/'. One-segment specifiers '.'/'..' and relative-base '..' underflow are counted as unjudged.".into()
     }
     fn assumptions(&self) -> Vec<String> {
         vec!["reference resolver in harness/src/props/c18.rs written from the property text (join to importer directory; stack removal of '.', '..', ''; clamp at root)".into()]
@@ -208,11 +211,13 @@ impl Property for C18Prop {
                 let (mut evals, mut nontriv, mut unj_dot, mut unj_under) = (0u64, 0u64, 0u64, 0u64);
                 let mut first_bad: Option<(String, Option<String>, String)> = None;
                 let mut bad = 0u64;
-                enumerate_total(total, shard, nshards, &mut |spec, imp| {
+                let mut nontriv_any = 0u64;
+                enumerate_total(total, shard, nshards, &mut |spec, imp, canonical| {
                     evals += 1;
                     match check_pair(spec, imp) {
                         PairVerdict::Ok { nontrivial } => {
-                            if nontrivial { nontriv += 1; }
+                            if nontrivial { nontriv_any += 1; }
+                            if nontrivial && canonical { nontriv += 1; }
                         }
                         PairVerdict::Unjudged(w) => {
                             if w.starts_with("one") { unj_dot += 1 } else { unj_under += 1 }
@@ -237,7 +242,7 @@ impl Property for C18Prop {
                 };
                 ex.evals = evals.max(1);
                 ex.nontrivial = nontriv;
-                ex.counters = vec![("unjudged:one-segment-dot".into(), unj_dot), ("unjudged:relative-underflow".into(), unj_under), ("exhaustive_pairs".into(), evals)];
+                ex.counters = vec![("unjudged:one-segment-dot".into(), unj_dot), ("unjudged:relative-underflow".into(), unj_under), ("exhaustive_pairs".into(), evals), ("exhaustive_nontrivial_incl_possible_duplicates".into(), nontriv_any)];
                 ex.observed = json!({"pairs": evals, "nontrivial": nontriv});
                 ex
             }
